@@ -28,25 +28,10 @@ const (
 	jan1        = int64(946684800000) // 2000-01-01T00:00:00Z
 )
 
-// Time zones of a plan (cfg "tz"): lindb computes segments (day / month / year stores) and families (hour / day of month /
-// month) in the node's LOCAL time (pkg/timeutil calculators use time.Local). Zones with a whole-hour offset, a half-hour
-// offset, and zones with daylight saving; in the latter the plans use days AFTER the switch of the month (cfg "month"),
-// where "day d of the month" is no longer "start of the month + (d-1) * 24h" (the day of the switch itself, which has 23
-// hours, is not used: C04 says nothing about days that are not 24 hours long).
-var zoneNames = []string{"UTC", "Asia/Shanghai", "Asia/Kolkata", "Europe/Berlin", "America/New_York", "America/St_Johns"}
-var zones = func() []*time.Location {
-	var r []*time.Location
-	for _, n := range zoneNames {
-		l, err := time.LoadLocation(n)
-		if err != nil {
-			panic(err)
-		}
-		r = append(r, l)
-	}
-	return r
-}()
-
-// zoneDays: per zone the month of year 2000 the plans use, its three primary source days and the second day that goes with each.
+// zoneDays: lindb computes segments and families in the node's local time (core.Zones, cfg "tz"). In the zones with daylight
+// saving the plans use days AFTER the switch of the month (cfg "month"), where "day d of the month" is no longer "start
+// of the month + (d-1) * 24h" (the day of the switch itself, which has 23 hours, is not used: C04 says nothing about days
+// that are not 24 hours long). Per zone the month of year 2000 the plans use, its three primary source days and the second day that goes with each.
 var zoneDays = []struct {
 	month int
 	days  []int
@@ -55,7 +40,7 @@ var zoneDays = []struct {
 	{1, []int{1, 3, 31}, map[int]int{1: 2, 3: 17, 31: 30}},
 	{1, []int{1, 3, 31}, map[int]int{1: 2, 3: 17, 31: 30}},
 	{1, []int{1, 3, 31}, map[int]int{1: 2, 3: 17, 31: 30}},
-	{3, []int{27, 29, 31}, map[int]int{27: 28, 29: 30, 31: 30}},  // Europe: switch on 2000-03-26
+	{3, []int{27, 29, 31}, map[int]int{27: 28, 29: 30, 31: 30}}, // Europe: switch on 2000-03-26
 	{4, []int{3, 17, 30}, map[int]int{3: 4, 17: 18, 30: 29}},    // US / Canada: switch on 2000-04-02
 	{4, []int{3, 17, 30}, map[int]int{3: 4, 17: 18, 30: 29}},
 }
@@ -85,7 +70,7 @@ func genC04(rng *rand.Rand, tier string) *core.Plan {
 		p.Cfg["tz"] = tz
 		p.Cfg["month"] = zd.month
 	}
-	p.Cfg["day"] = zd.days[rng.Intn(3)] // source segment: 2000-<month>-<day>
+	p.Cfg["day"] = zd.days[rng.Intn(3)]                 // source segment: 2000-<month>-<day>
 	p.Cfg["targets"] = []int{1, 1, 2, 3}[rng.Intn(4)]   // bit0: 5m (month), bit1: 1h (year)
 	p.Cfg["crash_pm"] = []int{0, 0, 4, 15}[rng.Intn(4)] // process death per file-system operation during rollup ops
 	// a second source segment (another day of the month) in a third of the plans: two day stores feed the same month
@@ -325,7 +310,9 @@ func (h *c04) check(when string) {
 			snap := fam.GetSnapshot()
 			tt := t
 			var err error
-			obs, err = readFamily(snap, h.metrics, func(_ uint32, s uint16) int { return slotKey(tt.famStart, tt.interval, tt.famStart+int64(s)*tt.interval) })
+			obs, err = readFamily(snap, h.metrics, func(_ uint32, s uint16) int {
+				return slotKey(tt.famStart, tt.interval, tt.famStart+int64(s)*tt.interval)
+			})
 			snap.Close()
 			if err != nil {
 				c.Violate("C04/unreadable", "%s: target %s: %v", when, t.store, err)
@@ -362,13 +349,7 @@ func (h *c04) check(when string) {
 func runC04(c *core.RunCtx) {
 	sim := c.Sim
 	h := &c04{c: c, sim: sim, base: filepath.Join(c.Dir, "db"), day: c.Plan.C("day", 1), models: map[string]model{}, origins: map[originKey][]origin{}, nMetrics: c.Plan.C("metrics", 1),
-		crashP: float64(c.Plan.C("crash_pm", 0)) / 1000, month: c.Plan.C("month", 1), loc: zones[c.Plan.C("tz", 0)]}
-	// the zone of the node: process-wide in Go, one run at a time per process
-	defer func(l *time.Location) { time.Local = l }(time.Local)
-	time.Local = h.loc
-	if h.loc != time.UTC {
-		sim.Probe("zone-" + h.loc.String())
-	}
+		crashP: float64(c.Plan.C("crash_pm", 0)) / 1000, month: c.Plan.C("month", 1), loc: core.Zone(c.Plan)}
 	h.srcName = filepath.Join(h.base, "day", fmt.Sprintf("2000%02d%02d", h.month, h.day))
 	h.days = []int{h.day}
 	if d2 := c.Plan.C("day2", 0); d2 != 0 {
